@@ -105,11 +105,23 @@ pub fn judge_line(
 pub fn panic_site(location: &str, message: &str) -> String {
     let file = location.rsplit_once(':').map(|x| x.0).unwrap_or(location);
     let file = file.rsplit("crates/").next().unwrap_or(file);
-    let msg: String = message
-        .chars()
-        .take(40)
-        .map(|c| if c.is_ascii_alphanumeric() { c } else { '_' })
-        .collect();
+    // Digits are normalised (indices and sizes vary with the input), then cut to a prefix.
+    let mut msg = String::new();
+    let mut last_digit = false;
+    for c in message.chars() {
+        if c.is_ascii_digit() {
+            if !last_digit {
+                msg.push('N');
+            }
+            last_digit = true;
+        } else {
+            last_digit = false;
+            msg.push(if c.is_ascii_alphabetic() { c } else { '_' });
+        }
+        if msg.len() >= 40 {
+            break;
+        }
+    }
     format!("{file}:{msg}")
 }
 
